@@ -113,7 +113,16 @@ def write_spec(ids: G.Ids, flags=''):
 
 
 def run_impl(lines, spec, nproc=8):
-    return lib.parallel_lines([lib.PY, IMPL, lib.REPO, spec], lines, nproc=nproc, env=lib.impl_env())
+    """the real code on every line; lines are dealt round-robin to the worker processes (the
+    streams differ a lot in cost per line) and the results put back in order"""
+    n = max(1, min(nproc, (len(lines) + 199) // 200))
+    order = [i for k in range(n) for i in range(k, len(lines), n)]
+    res = lib.parallel_lines([lib.PY, IMPL, lib.REPO, spec], [lines[i] for i in order], nproc=n,
+                             env=lib.impl_env())
+    out = [None] * len(lines)
+    for i, r in zip(order, res):
+        out[i] = r
+    return out
 
 
 def split_impl(r):
@@ -163,22 +172,22 @@ def gen_cases(tier, g: G.G):
                     extra.append(('binop', g.op(name, a, b)))
                     extra.append(('binop', g.op(name, b, a)))
                 extra.append(('binop', g.op(name, a, a)))
-        cases += r.sample(extra, 3500)
+        cases += r.sample(extra, 1000)
         cases += list(G.stream_prefix(g, u2))                         # exhaustive: prefix ops x universe
         cases += list(G.stream_setlike(g, u0))                        # exhaustive: set forms x core^2
-        cases += r.sample(list(G.stream_setlike(g, u1[14:50] + r.sample(u2, 14))), 3500)
-        cases += list(G.stream_triples(g))
-        cases += r.sample(list(G.stream_funcs(g, u1[:30], u0[:8])), 3500)
+        cases += r.sample(list(G.stream_setlike(g, u1[14:50] + r.sample(u2, 14))), 1000)
+        cases += r.sample(list(G.stream_triples(g)), 700)
+        cases += r.sample(list(G.stream_funcs(g, u1[:30], u0[:8])), 1000)
         poly = {'std::array_agg', 'std::array_unpack', 'std::min', 'std::max', 'std::sum', 'std::count',
                 'std::assert_single', 'std::assert_exists', 'std::assert_distinct', 'std::enumerate',
                 'std::array_get', 'std::array_fill', 'std::contains', 'std::find', 'std::range',
                 'std::multirange', 'std::range_unpack', 'std::array_join', 'std::len', 'std::math::mean'}
-        cases += list(G.stream_funcs(g, u2, u0, names=poly))          # exhaustive: polymorphic functions
-        cases += r.sample(list(G.stream_recursive(g)), 1500)
+        cases += list(G.stream_funcs(g, u1[:44], u0[:7], names=poly))  # exhaustive: polymorphic functions
+        cases += r.sample(list(G.stream_recursive(g)), 600)
         cases += list(G.stream_indirection(g, u1))
-        cases += list(G.stream_casts(g, u1[:34]))
-        cases += r.sample(list(G.stream_userfuncs(g, u2)), 1000)
-        nrand, nmal = 3000, 1200
+        cases += r.sample(list(G.stream_casts(g, u1[:34])), 600)
+        cases += r.sample(list(G.stream_userfuncs(g, u2)), 500)
+        nrand, nmal = 2000, 800
     else:
         cases += list(G.stream_binops(g, u1))
         rest = [x for x in u2 if x not in u1]
@@ -221,9 +230,9 @@ def pair_cases(g: G.G, tier):
     if tier != 'quick':
         univ = sc + colls + objs
     else:
-        univ = core + [S(n) for n in ('default::myint', 'default::myint2', 'default::Color', 'std::anyint',
-                                      'std::anyreal', 'std::cal::local_date', 'std::cal::local_datetime')] \
-            + colls + objs[:6]
+        univ = core[:9] + [S(n) for n in ('default::myint', 'default::myint2', 'default::Color', 'std::anyint',
+                                          'std::cal::local_date', 'std::cal::local_datetime')] \
+            + colls[:18] + colls[-8:] + objs[:4]
     out = []
     for a in univ:
         for b in univ:
@@ -243,7 +252,7 @@ def seed_queries():
         if not os.path.exists(p):
             continue
         src = open(p, encoding='utf-8').read()
-        for m in re.finditer(r'"""\n(.*?)\n% OK %', src, re.S):
+        for m in re.finditer(r'def test_\w+\(self\):\s*r?"""(.*?)% OK %', src, re.S):
             q = ' '.join(m.group(1).split())
             if q and len(q) < 400:
                 out.append(q)
@@ -253,6 +262,8 @@ def seed_queries():
 def recombine(seeds, r, n):
     out = []
     sel = [q for q in seeds if q.upper().startswith('SELECT') and ';' not in q]
+    if not sel:
+        return out
     for _ in range(n):
         a, b = r.choice(sel), r.choice(sel)
         ea, eb = a[6:].strip(), b[6:].strip()
@@ -484,6 +495,12 @@ def run(tier):
     rep = lib.Report(PROP, tier, 'proof')
     thorough = tier == 'thorough'
     t_start = time.time()
+    timings = {}
+
+    def lap(name):
+        nonlocal t_start
+        timings[name] = round(time.time() - t_start, 1)
+        t_start = time.time()
 
     # 1. translator (tie a)
     man, tr_err = regenerate()
@@ -494,6 +511,7 @@ def run(tier):
             man = json.load(open(mp))
             stale = True
 
+    lap('translate')
     # 2. proofs
     pf = lib.proof_stage(rep, 'C12', THEOREMS, extra_targets=['theories/C12/Refuted.vo'], thorough=thorough)
     rok, rproved, rlog = lib.coq_props('C12', 'Refuted.v') if pf['ok'] else (False, {}, 'skipped')
@@ -504,8 +522,10 @@ def run(tier):
     rep.coverage['refutation_witnesses'] = {t: ('checked' if rproved.get(t) == [] else 'NOT CHECKED')
                                            for t in REFUTED}
 
+    lap('proofs')
     # 3. model
     exe, blog = lib.build_model('c12', 'ExtractC12.v', 'c12_main.ml', 'C12_ext')
+    lap('build_model')
 
     if man is None:
         rep.violation('translator failed and no previous signature table exists: ' + str(tr_err),
@@ -527,9 +547,10 @@ def run(tier):
     plines = [f'{l[0]} {ext} {l[2:]}' for l in plines_raw]
     seeds = seed_queries()
     rs = lib.rng('C12seeds')
-    qtexts = seeds + recombine(seeds, rs, 600 if not thorough else 5000) if seeds else []
+    qtexts = seeds + recombine(seeds, rs, 250 if not thorough else 5000) if seeds else []
     qlines = ['Q ' + q.encode().hex() for q in qtexts]
 
+    lap('generate')
     t0 = time.time()
     all_impl = run_impl(['SIGDUMP'] + lines + plines + qlines, spec)
     impl_s = time.time() - t0
@@ -538,10 +559,11 @@ def run(tier):
     pimpl = all_impl[1 + len(lines):1 + len(lines) + len(plines)]
     qimpl = all_impl[1 + len(lines) + len(plines):]
     # determinism probe on a slice (every case compiled twice in one process)
-    nd = min(len(lines), 1500 if not thorough else 15000)
+    nd = min(len(lines), 500 if not thorough else 15000)
     step = max(1, len(lines) // nd)
     didx = list(range(0, len(lines), step))
     dimpl = run_impl([lines[i] for i in didx], spec_n)
+    lap('impl')
 
     model = pmodel = None
     if exe:
@@ -550,6 +572,7 @@ def run(tier):
         pmodel = lib.run_model(exe, plines)
         model_s = time.time() - t0
 
+    lap('model')
     # 5. signature tie
     sigdiff = []
     try:
@@ -638,6 +661,8 @@ def run(tier):
         except Exception as e:      # noqa
             coq_diff = [-1]
             rep.notes.append('coq_eval failed: ' + str(e)[-500:])
+
+    lap('compare+coq_eval')
 
     # ---- verdict
     def one_both(term):
@@ -737,6 +762,7 @@ def run(tier):
             rep.violation('proof obligations no longer check: ' + '; '.join(pf['broken'][:6]),
                           {'broken': pf['broken'], 'log_tail': pf['log'][-3000:]}, False)
 
+    lap('verdict')
     # ---- evidence
     kinds = {}
     for k, _ in cases:
@@ -802,6 +828,7 @@ def run(tier):
         'signature_sources': [f'{s["file"]} sha256={s["sha256"][:12]}' for s in man['sources']],
         'signature_table_equals_real_schema': not sigdiff,
         'impl_seconds': round(impl_s, 1),
+        'stage_seconds': timings,
         'trusted_base': [
             'Coq 8.16.1 kernel (coqc; coqchk in the thorough tier); vm_compute for the finite checks over the '
             'generated table, witnesses and the cases.v cross-check',
